@@ -51,7 +51,7 @@ def floors(ctx):
          "cases_with_by_value_class_using_super": 10 if q else 60, "cases_with_slotted_subclass": 20,
          "cases_with_classes_defined_in_a_script_main": 10,
          "deep_graphs_referred_to_by_a_by_value_closure": 2, "cases_with_values_of_str_or_int_subclasses": 50,
-         "cases_with_deeply_nested_plain_attribute_data": 5}
+         "cases_with_deeply_nested_plain_attribute_data": 5, "cases_with_warm_cache_outdated_by_an_edit": 30}
     for p in range(6):
         f[f"proto{p}"] = 10
     f["protodefault"] = 5
@@ -342,10 +342,19 @@ def run_case(ctx, rng, cfg, desc, root, objs_all, batch):
             for v in [o for o in objs_all if isinstance(o, Vertex)][:30]:
                 oracles.outcome(helpers.neighbors, v, 0, 1, None)
                 oracles.outcome(helpers.neighbors, v, 1, 1, zoo.f_tagged_edge)
-        form0, objs0 = canon.canonical(root)
-        bat0 = canon.battery(objs0)
+            if cfg.get("warm") == "then_edit":
+                # ... and then edited (a scratch edge comes and goes) and NOT queried again before the dump: whatever
+                # the library keeps of the outdated answers travels inside the pickle
+                ctx.count("cases_with_warm_cache_outdated_by_an_edit")
+                for v in [o for o in objs_all if isinstance(o, Vertex)][:30:2]:
+                    e = DirectedEdge(v, v)
+                    v.remove_from_link(e)
+        # the dump comes FIRST: the oracle's own queries on the original (which would refresh every cache entry)
+        # must not stand between the state the caller left the graph in and the pickle
         res = oracles.outcome(dump_bytes, root, cfg["proto"], cfg["via"], cfg.get("low_recursion", False),
                               DILL_KW[cfg.get("dill_kw", 0)])
+        form0, objs0 = canon.canonical(root)
+        bat0 = canon.battery(objs0)
         if cfg.get("dill_kw", 0) > 1:
             ctx.count("cases_with_dill_options")
     finally:
@@ -396,7 +405,7 @@ def rand_cfg(rng, fresh_p=0.25):
             "via": rng.choice(["dumps", "dump", "dump_file"]),
             "loader": rng.choice(["pickle", "dill"]),
             "where": "fresh" if rng.random() < fresh_p else "same", "cache_dump": rng.random() < 0.5,
-            "cache_load": rng.random() < 0.5, "warm": rng.random() < 0.4}
+            "cache_load": rng.random() < 0.5, "warm": rng.choice([False, False, False, True, "then_edit"])}
 
 
 def build_from_desc(desc):
